@@ -151,6 +151,7 @@ func cmdCheck(args []string) int {
 	hintDir := filepath.Join(outDir, "hints")
 	os.MkdirAll(hintDir, 0o755)
 	hintsTried, hintsFailed := 0, 0
+	hintStale := map[string]bool{}
 	HintSolver = func(obls []*Obligation) {
 		(&Solver{Dir: hintDir, Timeout: 10, Par: solverPar(), Prelude: e.Prelude(), QFPrelude: e.QFPrelude(), Eng: e, noRetry: true}).SolveAll(obls)
 	}
@@ -201,6 +202,12 @@ func cmdCheck(args []string) int {
 		}
 		hintsTried += res.HintsTried
 		hintsFailed += res.HintsFailed
+		if res.HintsFailed > 0 {
+			// proof hints are the proof script of the function; on the unchanged tree every hint is proved. A hint that
+			// is no longer proved means the script does not fit the code any more: later failures of this function
+			// are not reliable on their own (see the rule for stale contracts below)
+			hintStale[k] = true
+		}
 		for _, u := range res.Unsupported {
 			unsupported = append(unsupported, k+": "+u)
 		}
@@ -287,6 +294,9 @@ func cmdCheck(args []string) int {
 		}
 	}
 	staleFns := map[string]bool{}
+	for k := range hintStale {
+		staleFns[k] = true
+	}
 	for _, u := range unsupported {
 		oc.undecided = append(oc.undecided, "unsupported: "+u)
 		if k := strings.Index(u, ": "); k > 0 {
